@@ -156,7 +156,14 @@ def r12_2(ctx: Ctx, rep: Report) -> None:
 def r12_3(ctx: Ctx, rep: Report) -> None:  # noqa: C901
     rep.rule("R12.3")
     count = 0
+    # what is reachable from building objects out of text (constructors, line setters, config-level functions): a handler in
+    # a query on finished objects (`x in group`) drops no line
+    from .c20 import slice_funcs
+
+    _entries, builders = slice_funcs(ctx)
     for f in ctx.prog.funcs:
+        if f not in builders:
+            continue
         for t in own_nodes(f.node):
             if not isinstance(t, ast.Try):
                 continue
